@@ -1,17 +1,166 @@
 package main
 
 import (
-	"go/types"
+	"fmt"
+	"regexp"
+	"strings"
+
+	"golang.org/x/tools/go/ssa"
 )
 
-// call logs and lock state: filled in by logs.go
+// registerAxioms turns the `axiom` clauses of all spec files into background
+// axioms (assumed facts about ghost functions; listed in the evidence).
+func (x *Exec) registerAxioms() error {
+	var err error
+	all := append([]*SpecFile{}, x.extSpecs...)
+	for _, k := range sortedKeys(x.specs) {
+		all = append(all, x.specs[k])
+	}
+	for _, sf := range all {
+		for _, l := range sf.Lemmas {
+			if !l.Axiom {
+				continue
+			}
+			func() {
+				defer func() {
+					if r := recover(); r != nil {
+						if se, ok := r.(specErr); ok {
+							err = fmt.Errorf("%s: axiom %s: %s", sf.Path, l.Name, se.msg)
+							return
+						}
+						panic(r)
+					}
+				}()
+				body, binders := x.closedFormula(sf, l, true)
+				text := body.S
+				if len(binders) > 0 {
+					text = fmt.Sprintf("(forall (%s) %s)", strings.Join(binders, " "), body.S)
+				}
+				used := map[string]bool{}
+				collectSymbols(text, used)
+				var trig []string
+				for s := range used {
+					if strings.HasPrefix(s, "|ghost ") {
+						trig = append(trig, s)
+					}
+				}
+				addAxiom("axiom "+sf.Pkg+"::"+l.Name, trig, text)
+				x.axiomNames = append(x.axiomNames, sf.Pkg+"::"+l.Name+": "+l.Text)
+			}()
+		}
+	}
+	return err
+}
 
-func (x *Exec) extraChecks(plan *Plan, only interface{ MatchString(string) bool }) {}
+func (x *Exec) closedFormula(sf *SpecFile, l *Lemma, bind bool) (T, []string) {
+	st := newState()
+	pkg := x.typesPkg(sf.Pkg)
+	ctx := &EvalCtx{x: x, st: st, old: st, env: map[string]SV{}, pkg: pkg, sf: sf}
+	var binders []string
+	for _, v := range l.Vars {
+		sort, typ := x.ghostSort(v.Type, pkg, sf)
+		var t T
+		if bind {
+			t = T{quoteSym("a " + v.Name), sort}
+			binders = append(binders, fmt.Sprintf("(%s %s)", t.S, sort))
+		} else {
+			t = declConst("lv "+l.Name+" "+v.Name, sort)
+		}
+		ctx.env[v.Name] = SV{t: t, typ: typ}
+	}
+	return ctx.boolOf(l.E), binders
+}
 
-var _ = types.Typ
+func (x *Exec) tableChecks(plan *Plan, only *regexp.Regexp) {
+	for _, name := range plan.Tables {
+		if only != nil && !only.MatchString(name) {
+			continue
+		}
+		i := strings.LastIndexByte(name, '.')
+		pkgPath := modulePath + "/" + name[:i]
+		varName := name[i+1:]
+		sf := x.specs[pkgPath]
+		var pin *TablePin
+		if sf != nil {
+			for _, t := range sf.Tables {
+				if t.Var == varName {
+					pin = t
+				}
+			}
+		}
+		if pin == nil {
+			x.lemmaErrs = append(x.lemmaErrs, "table pin "+name+" not found")
+			continue
+		}
+		func() {
+			defer func() {
+				if r := recover(); r != nil {
+					if se, ok := r.(specErr); ok {
+						x.lemmaErrs = append(x.lemmaErrs, fmt.Sprintf("table %s: %s", name, se.msg))
+						return
+					}
+					panic(r)
+				}
+			}()
+			st := x.baseState()
+			pkg := x.typesPkg(pkgPath)
+			ctx := &EvalCtx{x: x, st: st, old: st, env: map[string]SV{}, pkg: pkg, sf: sf}
+			g := ctx.boolOf(pin.E)
+			x.checks = append(x.checks, &Check{Name: name[:i] + "/table/" + varName, Goal: g, At: st.ev, Fn: "table " + name, Detail: pin.Text, Where: fmt.Sprintf("%s:%d", sf.Path, pin.Line)})
+			// immutability of the variable (whole-module scan)
+			imm := false
+			if sp := x.ssaPkgs[pkgPath]; sp != nil {
+				if gv, ok := sp.Members[varName].(*ssa.Global); ok {
+					imm = x.immutable[gv]
+				}
+			}
+			x.checks = append(x.checks, &Check{Name: name[:i] + "/immutable/" + varName, Goal: mkBool(imm), At: nil, Fn: "table " + name, Detail: "no store to " + varName + " (or through it) outside package initialisers"})
+		}()
+	}
+}
+
+func (x *Exec) extraChecks(plan *Plan, only *regexp.Regexp) {
+	x.tableChecks(plan, only)
+	for _, name := range plan.Lemmas {
+		if only != nil && !only.MatchString(name) {
+			continue
+		}
+		found := false
+		all := append([]*SpecFile{}, x.extSpecs...)
+		for _, k := range sortedKeys(x.specs) {
+			all = append(all, x.specs[k])
+		}
+		for _, sf := range all {
+			for _, l := range sf.Lemmas {
+				if l.Axiom || l.Name != name {
+					continue
+				}
+				found = true
+				func() {
+					defer func() {
+						if r := recover(); r != nil {
+							if se, ok := r.(specErr); ok {
+								x.lemmaErrs = append(x.lemmaErrs, fmt.Sprintf("lemma %s: %s", name, se.msg))
+								return
+							}
+							panic(r)
+						}
+					}()
+					body, _ := x.closedFormula(sf, l, false)
+					x.checks = append(x.checks, &Check{Name: "lemma/" + name, Goal: body, At: nil, Fn: "lemma " + name, Detail: l.Text, Where: sf.Path})
+				}()
+			}
+		}
+		if !found {
+			x.lemmaErrs = append(x.lemmaErrs, "lemma "+name+" not found")
+		}
+	}
+}
 
 func (x *Exec) logCall(st *State, c *Contract, name string, args []Val, res []Val, panicked bool) {}
 
 func (x *Exec) logExpr(c *EvalCtx, v *ECall) SV { sfail("call logs not implemented"); return SV{} }
 
 func (x *Exec) lockExpr(c *EvalCtx, v *ECall) SV { sfail("lock state not implemented"); return SV{} }
+
+var _ ssa.Value
